@@ -131,13 +131,17 @@ def make_session_scenarios(ctx, count):
         s.iface(0, **H.iface_kw(cfg)).glob(**G.global_kw(glob))
         s.add("OPT sleep=0")
         reqs = []
+        gaps = 0
         for fr in frames:
+            if i % 2 and rng.random() < 0.25:
+                s.add("ADV %d" % rng.choice(s.GAPS_MS))
+                gaps += 1
             s.frame(0, fr)
             if len(fr) >= 36 and fr[15] == 0 and fr[17] == W.OP_QLT:
                 reqs.append(("call", fr[32], struct.unpack(">H", fr[34:36])[0], struct.unpack(">H", fr[30:32])[0]))
             else:
                 reqs.append(("other",))
-        s.meta = dict(reqs=reqs, glob=glob, mtu=mtu, own=cfg["mac"])
+        s.meta = dict(reqs=reqs, glob=glob, mtu=mtu, own=cfg["mac"], clock_gaps=gaps)
         scns.append(s)
     return scns
 
@@ -271,3 +275,4 @@ def run(ctx):
                 args.append([mtu, lo, min(32769, lo + 2049), 1, 1, 0x11])
         sweeps.run_sweep(ctx, "c08", args, "C08", binary=sw, timeout=6 * 3600)
     rep.need("sweep_calls", c.get("sweep_c08_calls", 0), 100000)
+    rep.need("clock_gaps_between_frames", rep.counters.get("clock_gaps_between_frames", 0), 200)
